@@ -18,6 +18,10 @@ Record site_cfg := {
   sc_lit_callers : list string    (* methods instrumented on string-literal receivers *)
 }.
 
+(** The methods the property documents as covered on a string-literal receiver -- written here, in the specification,
+    not taken from the code (Properties/C04.v proves that the list regenerated from csi_methods.rs is this one). *)
+Definition documented_lit_callers : list string := ["concat"; "replace"; "replaceAll"; "padEnd"; "padStart"; "repeat"].
+
 Record site := {
   s_key : sp;
   s_what : string;       (* "+", "+=", "Tpl" or the method name *)
